@@ -2651,15 +2651,21 @@ func (pid *PID) tryPassivation(reason string) bool {
 	// the heap: since then the actor may have been stopped, paused or suspended,
 	// or may have handled a message. Returning false lets the manager re-arm the
 	// entry (or drop it when it is paused or unregistered).
-	if !pid.isStateSet(runningState) ||
-		pid.isStateSet(stoppingState) ||
+	if !pid.isStateSet(runningState) {
+		// already stopped: nothing left to passivate, make sure the manager forgets the actor
+		pid.unregisterPassivation()
+		return false
+	}
+
+	if pid.isStateSet(stoppingState) ||
 		pid.isStateSet(suspendedState) ||
 		pid.isStateSet(passivationPausedState) {
 		return false
 	}
 
 	if strategy, ok := pid.passivationStrategy.(*passivation.TimeBasedStrategy); ok {
-		if last := pid.passivationLatestActivity(); !last.IsZero() && time.Since(last) < strategy.Timeout() {
+		// a zero stamp means the actor has only just (re)started, exactly as refreshDeadline reads it
+		if last := pid.passivationLatestActivity(); last.IsZero() || time.Since(last) < strategy.Timeout() {
 			return false
 		}
 	}
